@@ -1,6 +1,6 @@
 (* parse_turtle on a line with predicate lists (;) and object lists (,). *)
 Require Import KV.Codec13.Model KV.Codec13.Spec KV.Codec13.Wf KV.Codec13.WfTtl KV.Codec13.Classes KV.Codec13.Inv.
-Require Import KV.Codec13.StrProofs KV.Codec13.TokProofs KV.Codec13.DictProofs KV.Codec13.N3Proofs KV.Codec13.TtlProofs.
+Require Import KV.Codec13.StrProofs KV.Codec13.TokProofs KV.Codec13.DictProofs KV.Codec13.QtDictProofs KV.Codec13.N3Proofs KV.Codec13.TtlProofs.
 Require Import Lia PeanoNat.
 
 (* ---- the two other punctuation tokens ---- *)
@@ -46,6 +46,7 @@ Lemma scan_objs : forall os toks c rest, wf_objs os = true -> (c = cSEMI \/ c = 
 Proof.
   induction os as [|o os IH]; intros toks c rest H Hc; [discriminate|].
   unfold wf_objs in H. cbn [is_empty negb andb forallb] in H. apply andb_true_iff in H. destruct H as [Ho Hos].
+  apply andb_true_iff in Ho. destruct Ho as [Ho _].
   destruct os as [|o2 os'].
   - cbn [render_objs toks_objs rev app]. apply scan_term_punct; [exact Ho | destruct Hc; auto].
   - cbn [render_objs toks_objs]. rewrite <- app_assoc. cbn [app].
@@ -60,7 +61,7 @@ Proof.
   induction pos as [|[p os] pos IH]; intros toks Hne H; [discriminate|].
   cbn [forallb] in H. apply andb_true_iff in H. destruct H as [Hpo H].
   unfold wf_po in Hpo. cbn [fst snd] in Hpo. apply andb_true_iff in Hpo. destruct Hpo as [Hpo Hos].
-  apply andb_true_iff in Hpo. destruct Hpo as [Hp _].
+  apply andb_true_iff in Hpo. destruct Hpo as [Hpo _]. apply andb_true_iff in Hpo. destruct Hpo as [Hp _].
   destruct pos as [|po2 pos'].
   - cbn [render_pos toks_pos]. rewrite <- app_assoc. cbn [app]. rewrite scan_term_sp by exact Hp.
     rewrite scan_objs; [| exact Hos | auto]. cbn [t_scan rev]. rewrite <- ?app_assoc. reflexivity.
@@ -103,7 +104,8 @@ Proof. intros e s p x o Hx Hn. unfold add1. destruct (add_lex_spec x (lex e s) (
 
 (* object list, then ';' or '.' *)
 Lemma objs_then : forall os x s p c rest,
-  wf_objs os = true -> wf_term_ttl s = true -> wf_term_ttl p = true -> (c = cSEMI \/ c = cDOT) ->
+  wf_objs os = true -> wf_term_ttl s = true -> is_quoted_term s = false ->
+  wf_term_ttl p = true -> is_quoted_term p = false -> (c = cSEMI \/ c = cDOT) ->
   db_ok x -> pref_ok (d_pref x) -> next_id (d_dict x) + 4 * N.of_nat (length os) <= QBIT ->
   fold_left ttl_token (toks_objs os ++ [c] :: rest) (A2 x (render_term s) (render_term p))
   = fold_left ttl_token rest (after c (fold_left (add1 (d_pref x) s p) os x) (render_term s)) /\
@@ -111,8 +113,9 @@ Lemma objs_then : forall os x s p c rest,
   d_pref (fold_left (add1 (d_pref x) s p) os x) = d_pref x /\
   next_id (d_dict (fold_left (add1 (d_pref x) s p) os x)) <= next_id (d_dict x) + 4 * N.of_nat (length os).
 Proof.
-  induction os as [|o os IH]; intros x s p c rest H Hs Hp Hc Hx Hpr Hn; [discriminate|].
+  induction os as [|o os IH]; intros x s p c rest H Hs Hsq Hp Hpq Hc Hx Hpr Hn; [discriminate|].
   unfold wf_objs in H. cbn [is_empty negb andb forallb] in H. apply andb_true_iff in H. destruct H as [Ho Hos].
+  apply andb_true_iff in Ho. destruct Ho as [Ho Hoq]. apply negb_true_iff in Hoq.
   cbn [length] in Hn. rewrite Nat2N.inj_succ in Hn.
   assert (N4 : next_id (d_dict x) + 4 <= QBIT) by lia.
   destruct (ttl_not_delim o Ho) as (O1 & O2 & O3).
@@ -122,15 +125,15 @@ Proof.
   - cbn [toks_objs app fold_left length]. unfold A2. rewrite tok_obj by assumption. fold (A3 x (render_term s) (render_term p) (render_term o)).
     split; [|split; [exact K1 | split; [exact K4 | lia]]].
     f_equal. destruct Hc as [Hc|Hc]; subst c.
-    + rewrite tok_semi. rewrite ttl_flush_stmt by assumption. reflexivity.
-    + unfold A3. rewrite tok_dot. cbn [l_db l_subj l_pred l_objs]. rewrite ttl_flush_stmt by assumption. reflexivity.
+    + rewrite tok_semi. rewrite ttl_flush_stmt_plain by assumption. reflexivity.
+    + unfold A3. rewrite tok_dot. cbn [l_db l_subj l_pred l_objs]. rewrite ttl_flush_stmt_plain by assumption. reflexivity.
   - cbn [toks_objs app fold_left]. unfold A2 at 1. rewrite tok_obj by assumption.
-    fold (A3 x (render_term s) (render_term p) (render_term o)). rewrite tok_comma. rewrite ttl_flush_stmt by assumption.
+    fold (A3 x (render_term s) (render_term p) (render_term o)). rewrite tok_comma. rewrite ttl_flush_stmt_plain by assumption.
     fold (add1 (d_pref x) s p x o). fold (A2 (add1 (d_pref x) s p x o) (render_term s) (render_term p)).
     assert (Hpr' : pref_ok (d_pref (add1 (d_pref x) s p x o))) by (rewrite K4; exact Hpr).
     assert (Hn' : next_id (d_dict (add1 (d_pref x) s p x o)) + 4 * N.of_nat (length (o2 :: os')) <= QBIT) by lia.
     assert (W : wf_objs (o2 :: os') = true) by (unfold wf_objs; exact Hos).
-    destruct (IH (add1 (d_pref x) s p x o) s p c rest W Hs Hp Hc K1 Hpr' Hn') as (J1 & J2 & J3 & J4).
+    destruct (IH (add1 (d_pref x) s p x o) s p c rest W Hs Hsq Hp Hpq Hc K1 Hpr' Hn') as (J1 & J2 & J3 & J4).
     rewrite K4 in J1, J2, J3, J4. change (toks_objs (o2 :: os')) with (toks_objs (o2 :: os')) in J1.
     split; [exact J1|]. split; [exact J2|]. split; [exact J3|]. cbn [fold_left] in J4. cbn [length] in *. rewrite ?Nat2N.inj_succ in *. lia.
 Qed.
@@ -157,29 +160,29 @@ Proof.
 Qed.
 
 Lemma pos_then : forall pos x s,
-  negb (is_empty pos) = true -> forallb wf_po pos = true -> wf_term_ttl s = true ->
+  negb (is_empty pos) = true -> forallb wf_po pos = true -> wf_term_ttl s = true -> is_quoted_term s = false ->
   db_ok x -> pref_ok (d_pref x) -> next_id (d_dict x) + 4 * N.of_nat (count_objs pos) <= QBIT ->
   fold_left ttl_token (toks_pos pos ++ [[cDOT]]) (A1 x (render_term s))
   = A0 (fold_left add_lex4 (pos_quads (d_pref x) s pos) x).
 Proof.
-  induction pos as [|[p os] pos IH]; intros x s Hne H Hs Hx Hpr Hn; [discriminate|].
+  induction pos as [|[p os] pos IH]; intros x s Hne H Hs Hsq Hx Hpr Hn; [discriminate|].
   cbn [forallb] in H. apply andb_true_iff in H. destruct H as [Hpo H].
   unfold wf_po in Hpo. cbn [fst snd] in Hpo. apply andb_true_iff in Hpo. destruct Hpo as [Hpo Hos].
-  apply andb_true_iff in Hpo. destruct Hpo as [Hp _].
+  apply andb_true_iff in Hpo. destruct Hpo as [Hpo Hpq]. apply negb_true_iff in Hpq. apply andb_true_iff in Hpo. destruct Hpo as [Hp _].
   destruct (ttl_not_delim p Hp) as (P1 & P2 & P3).
   cbn [count_objs snd] in Hn. rewrite Nat2N.inj_add in Hn.
   rewrite pos_quads_cons, (fold_left_app add_lex4), <- fold_add1.
   destruct pos as [|po2 pos'].
   - change (pos_quads (d_pref x) s []) with (@nil squad). cbn [toks_pos app fold_left]. unfold A1. rewrite tok_pred by assumption.
     fold (A2 x (render_term s) (render_term p)).
-    destruct (objs_then os x s p cDOT [] Hos Hs Hp (or_intror eq_refl) Hx Hpr ltac:(lia)) as (J1 & _).
+    destruct (objs_then os x s p cDOT [] Hos Hs Hsq Hp Hpq (or_intror eq_refl) Hx Hpr ltac:(lia)) as (J1 & _).
     rewrite J1. reflexivity.
   - change (toks_pos ((p, os) :: po2 :: pos')) with (render_term p :: toks_objs os ++ [cSEMI] :: toks_pos (po2 :: pos')).
     cbn [app]. rewrite <- app_assoc. cbn [app fold_left]. unfold A1 at 1. rewrite tok_pred by assumption.
     fold (A2 x (render_term s) (render_term p)).
-    destruct (objs_then os x s p cSEMI (toks_pos (po2 :: pos') ++ [[cDOT]]) Hos Hs Hp (or_introl eq_refl) Hx Hpr ltac:(lia)) as (J1 & J2 & J3 & J4).
+    destruct (objs_then os x s p cSEMI (toks_pos (po2 :: pos') ++ [[cDOT]]) Hos Hs Hsq Hp Hpq (or_introl eq_refl) Hx Hpr ltac:(lia)) as (J1 & J2 & J3 & J4).
     etransitivity; [exact J1|]. unfold after. change (cSEMI =? cSEMI) with true. cbv iota.
-    rewrite IH; [| reflexivity | exact H | exact Hs | exact J2 | rewrite J3; exact Hpr | lia].
+    rewrite IH; [| reflexivity | exact H | exact Hs | exact Hsq | exact J2 | rewrite J3; exact Hpr | lia].
     rewrite J3. reflexivity.
 Qed.
 
@@ -187,8 +190,10 @@ Lemma ttl_line_list : forall x s pos, wf_list s pos = true -> db_ok x -> pref_ok
   next_id (d_dict x) + 4 * N.of_nat (count_objs pos) <= QBIT ->
   ttl_line x (render_item (IList s pos)) = fold_left add_lex4 (item_quads (d_pref x) (IList s pos)) x.
 Proof.
-  intros x s pos H Hx Hpr Hn. pose proof H as H'. unfold wf_list in H. repeat (apply andb_true_iff in H; destruct H as [H ?]).
-  apply negb_true_iff in H2.
+  intros x s pos H Hx Hpr Hn. pose proof H as H'. unfold wf_list in H.
+  apply andb_true_iff in H. destruct H as [H H0]. apply andb_true_iff in H. destruct H as [H H1].
+  apply andb_true_iff in H. destruct H as [H Hsq]. apply andb_true_iff in H. destruct H as [H H2].
+  apply negb_true_iff in H2. apply negb_true_iff in Hsq.
   set (L := render_term s ++ cSP :: render_pos pos ++ [cSP; cDOT]).
   assert (EL : render_item (IList s pos) = L) by reflexivity.
   rewrite EL. destruct (ttl_first s H) as (cs & rs & Es & Ks). destruct (first_facts cs Ks) as (F1 & F2 & _).
@@ -209,55 +214,71 @@ Qed.
 
 (* ---------------------------------------------------------------------------------------------- *)
 (* documents *)
+Lemma star_fine_of_class : forall pd s p o, ttl_star_stmt (IStmt pd s p o None) && existsb term_recleaned (item_terms (IStmt pd s p o None)) = false ->
+  star_fine s p o.
+Proof.
+  intros pd s p o H Hq. apply andb_false_iff in H. destruct H as [H|H].
+  - exfalso. cbn [ttl_star_stmt] in H. apply orb_true_iff in Hq. destruct Hq as [Hq|Hq].
+    + destruct s; try discriminate.
+    + destruct o; try discriminate; destruct s; discriminate.
+  - cbn [item_terms existsb] in H. apply orb_false_iff in H. destruct H as [Rs H].
+    apply orb_false_iff in H. destruct H as [Rp H]. apply orb_false_iff in H. destruct H as [Ro _]. auto.
+Qed.
+
 Lemma ttl_main : forall (doc : list item) (x : db),
-  wf_doc_ttl doc = true -> db_ok x -> pref_ok (d_pref x) ->
-  next_id (d_dict x) + 4 * N.of_nat (length (quads_from (d_pref x) doc)) <= QBIT ->
-  db_ok (load_ttl (render_doc doc) x) /\
+  wf_doc_ttl doc = true -> known_C13_ttl_reclean doc = false -> db_okq x -> pref_ok (d_pref x) ->
+  next_id (d_dict x) + 9 * N.of_nat (length (quads_from (d_pref x) doc)) <= QBIT ->
+  db_okq (load_ttl (render_doc doc) x) /\
   forall lq, In lq (den (load_ttl (render_doc doc) x)) <-> In lq (den x) \/ In lq (map lq_of4 (quads_from (d_pref x) doc)).
 Proof.
-  induction doc as [|i doc IH]; intros x Hw Hx Hp Hn.
+  induction doc as [|i doc IH]; intros x Hw Hk Hx Hp Hn.
   - cbn [render_doc map load_ttl fold_left quads_from In]. split; [exact Hx | intro lq; tauto].
   - unfold wf_doc_ttl in Hw. cbn [forallb] in Hw. apply andb_true_iff in Hw. destruct Hw as [Hi Hw].
+    unfold known_C13_ttl_reclean in Hk. cbn [existsb] in Hk. apply orb_false_iff in Hk. destruct Hk as [Hki Hk].
     cbn [quads_from] in Hn. rewrite app_length, Nat2N.inj_add in Hn.
     unfold load_ttl in *. cbn [render_doc map fold_left quads_from].
     destruct i as [ws|ws text|pd s p o g|name iri|s pos]; cbn [wf_item_ttl] in Hi; try discriminate.
     + cbn [render_item]. rewrite ttl_line_blank by exact Hi. cbn [item_quads item_env app length] in *.
-      apply IH; [exact Hw | exact Hx | exact Hp | lia].
+      apply IH; [exact Hw | exact Hk | exact Hx | exact Hp | lia].
     + cbn [render_item]. rewrite ttl_line_comment by exact Hi. cbn [item_quads item_env app length] in *.
-      apply IH; [exact Hw | exact Hx | exact Hp | lia].
+      apply IH; [exact Hw | exact Hk | exact Hx | exact Hp | lia].
     + destruct g as [g|]; [discriminate|].
-      apply andb_true_iff in Hi. destruct Hi as [Hi Ho]. apply andb_true_iff in Hi. destruct Hi as [Hi Hlp].
-      apply andb_true_iff in Hi. destruct Hi as [Hi Hpp]. apply andb_true_iff in Hi. destruct Hi as [Hi Hls].
-      apply andb_true_iff in Hi. destruct Hi as [Hpd Hs]. apply negb_true_iff in Hls.
+      apply andb_true_iff in Hi. destruct Hi as [Hi Ho]. apply andb_true_iff in Hi. destruct Hi as [Hi Hpq].
+      apply andb_true_iff in Hi. destruct Hi as [Hi Hlp]. apply andb_true_iff in Hi. destruct Hi as [Hi Hpp].
+      apply andb_true_iff in Hi. destruct Hi as [Hi Hls]. apply andb_true_iff in Hi. destruct Hi as [Hpd Hs].
+      apply negb_true_iff in Hls. apply negb_true_iff in Hpq.
+      pose proof (star_fine_of_class pd s p o Hki) as Hf.
       cbn [render_item]. rewrite ttl_line_stmt by assumption. cbn [item_quads item_env length] in Hn.
-      assert (N4 : next_id (d_dict x) + 4 <= QBIT) by lia.
-      destruct (add_lex_spec x (lex (d_pref x) s) (lex (d_pref x) p) (lex (d_pref x) o) None Hx N4) as (K1 & K2 & K3 & K4).
-      set (x' := add_lex x (lex (d_pref x) s) (lex (d_pref x) p) (lex (d_pref x) o) None) in *.
+      assert (N9 : next_id (d_dict x) + 9 <= QBIT) by lia.
+      destruct (ttl_step_spec x s p o Hx Hp Hs Hpp Ho N9) as (K1 & K2 & K3 & K4).
+      set (x' := ttl_step x s p o) in *.
       assert (Hp' : pref_ok (d_pref x')) by (rewrite K4; exact Hp).
-      assert (Hn' : next_id (d_dict x') + 4 * N.of_nat (length (quads_from (d_pref x') doc)) <= QBIT) by (rewrite K4; lia).
-      destruct (IH x' Hw K1 Hp' Hn') as [J1 J2]. split; [exact J1|].
+      assert (Hn' : next_id (d_dict x') + 9 * N.of_nat (length (quads_from (d_pref x') doc)) <= QBIT) by (rewrite K4; lia).
+      destruct (IH x' Hw Hk K1 Hp' Hn') as [J1 J2]. split; [exact J1|].
       intro lq. rewrite J2, K2, K4. cbn [item_quads item_env]. rewrite map_app, in_app_iff. cbn [map In lq_of4].
       split.
       * intros [[H|H]|H]; [left; exact H | right; left; left; symmetry; exact H | right; right; exact H].
       * intros [H|[[H|[]]|H]]; [left; left; exact H | left; right; symmetry; exact H | right; exact H].
     + apply andb_true_iff in Hi. destruct Hi as [Hnm Hiri].
       rewrite render_prefix. rewrite ttl_line_prefix by assumption.
-      destruct (set_pref_ok x ((name, iri) :: d_pref x) Hx) as [K1 K2].
+      destruct (set_pref_ok x ((name, iri) :: d_pref x) (proj1 Hx)) as [K1 K2].
+      assert (K1q : db_okq (set_pref x ((name, iri) :: d_pref x))) by (split; [exact K1 | apply set_pref_okq; apply Hx]).
       assert (Hp' : pref_ok (d_pref (set_pref x ((name, iri) :: d_pref x)))).
       { cbn [set_pref d_pref]. constructor; [|exact Hp]. cbn [fst snd]. split; [exact Hnm|].
-        destruct iri as [|c r]; [reflexivity|]. cbn [forallb] in Hiri. apply andb_true_iff in Hiri. destruct Hiri as [Hc _].
-        apply n3_char_facts in Hc. destruct Hc as (_ & L & _). cbn [starts_with_c]. exact L. }
+        clear -Hiri. induction iri as [|c r IHr]; [reflexivity|]. cbn [forallb] in *. apply andb_true_iff in Hiri. destruct Hiri as [Hc Hr].
+        unfold n3_char in Hc. apply andb_true_iff in Hc. destruct Hc as [Hc _]. rewrite Hc. cbn [andb]. apply IHr. exact Hr. }
       cbn [item_quads item_env length] in Hn.
-      assert (Hn' : next_id (d_dict (set_pref x ((name, iri) :: d_pref x))) + 4 * N.of_nat (length (quads_from (d_pref (set_pref x ((name, iri) :: d_pref x))) doc)) <= QBIT)
+      assert (Hn' : next_id (d_dict (set_pref x ((name, iri) :: d_pref x))) + 9 * N.of_nat (length (quads_from (d_pref (set_pref x ((name, iri) :: d_pref x))) doc)) <= QBIT)
         by (cbn [set_pref d_dict d_pref]; lia).
-      destruct (IH _ Hw K1 Hp' Hn') as [J1 J2]. split; [exact J1|].
+      destruct (IH _ Hw Hk K1q Hp' Hn') as [J1 J2]. split; [exact J1|].
       intro lq. rewrite J2, K2. cbn [item_quads item_env app set_pref d_pref]. reflexivity.
     + cbn [item_quads item_env] in Hn. fold (pos_quads (d_pref x) s pos) in Hn. rewrite pos_quads_length in Hn.
-      rewrite ttl_line_list; [| exact Hi | exact Hx | exact Hp | lia].
+      rewrite ttl_line_list; [| exact Hi | apply Hx | exact Hp | lia].
       cbn [item_quads item_env]. fold (pos_quads (d_pref x) s pos).
       assert (Nq : next_id (d_dict x) + 4 * N.of_nat (length (pos_quads (d_pref x) s pos)) <= QBIT)
         by (rewrite pos_quads_length; lia).
-      destruct (fold_add_lex_spec (pos_quads (d_pref x) s pos) x Hx Nq) as (K1 & K2 & K4).
+      destruct (fold_add_lex_spec (pos_quads (d_pref x) s pos) x (proj1 Hx) Nq) as (K1 & K2 & K4).
+      pose proof (fold_add_lex_okq (pos_quads (d_pref x) s pos) x Hx Nq) as K1q.
       set (x' := fold_left add_lex4 (pos_quads (d_pref x) s pos) x) in *.
       assert (K3 : next_id (d_dict x') <= next_id (d_dict x) + 4 * N.of_nat (length (pos_quads (d_pref x) s pos))).
       { unfold x'. clear. generalize (pos_quads (d_pref x) s pos) as qs. intro qs. revert x.
@@ -274,17 +295,17 @@ Proof.
                  end; cbn [set_dict d_dict next_id s2i fst snd]; lia. }
         lia. }
       assert (Hp' : pref_ok (d_pref x')) by (rewrite K4; exact Hp).
-      assert (Hn' : next_id (d_dict x') + 4 * N.of_nat (length (quads_from (d_pref x') doc)) <= QBIT)
+      assert (Hn' : next_id (d_dict x') + 9 * N.of_nat (length (quads_from (d_pref x') doc)) <= QBIT)
         by (rewrite K4; rewrite pos_quads_length in K3; lia).
-      destruct (IH x' Hw K1 Hp' Hn') as [J1 J2]. split; [exact J1|].
+      destruct (IH x' Hw Hk (conj K1 K1q) Hp' Hn') as [J1 J2]. split; [exact J1|].
       intro lq. rewrite J2, K2, K4. rewrite map_app, in_app_iff. tauto.
 Qed.
 
 Lemma ttl_main_noprefix : forall (doc : list item) (x : db),
-  wf_doc_ttl doc = true -> db_ok x -> d_pref x = [] ->
-  next_id (d_dict x) + 4 * N.of_nat (length (triples_of doc)) <= QBIT ->
-  db_ok (load_ttl (render_doc doc) x) /\
+  wf_doc_ttl doc = true -> known_C13_ttl_reclean doc = false -> db_okq x -> d_pref x = [] ->
+  next_id (d_dict x) + 9 * N.of_nat (length (triples_of doc)) <= QBIT ->
+  db_okq (load_ttl (render_doc doc) x) /\
   forall lq, In lq (den (load_ttl (render_doc doc) x)) <-> In lq (den x) \/ In lq (map lq_of4 (triples_of doc)).
 Proof.
-  intros doc x Hw Hx Hp Hn. unfold triples_of in *. rewrite <- Hp in *. apply ttl_main; try assumption. rewrite Hp. constructor.
+  intros doc x Hw Hk Hx Hp Hn. unfold triples_of in *. rewrite <- Hp in *. apply ttl_main; try assumption. rewrite Hp. constructor.
 Qed.
